@@ -1,11 +1,11 @@
 SPECIFICATION Spec
 CONSTANTS
-  Fmts <- TFmts
-  ArgVals <- MCArgVals
-  MaxArgs = 4
-  ItemVals <- MCItemVals
-  MaxItems = 3
-  MaxOps = 1
+  Fmts <- HFmts
+  ArgVals <- HArgVals
+  MaxArgs = 3
+  ItemVals <- HItemVals
+  MaxItems = 2
+  MaxOps = 3
   Ops = {"format", "raise"}
 INVARIANTS MachineIsMeaning FormatLaws EveryOpIsMeaning AgainIsSame Emit
 PROPERTY Terminates
